@@ -106,9 +106,9 @@ def email_doc(rng):
 
 def raw_metadata(rng):
     vals = {
-        "metadata_version": ["2.1", "2.3", "2.4", "1.0", "9.9", "x"], "name": ["foo", "Foo_Bar", "-bad", ""], "version": ["1.0", "1!2a1", "bad"],
-        "summary": ["ok", "two\nlines"], "description": ["text"], "description_content_type": ["text/markdown", "text/plain; charset=UTF-8", "text/x", "text/plain\nfoo", "text/plain; charset=latin-1"],
-        "keywords": [["a", "b"], []], "requires_python": [">=3.8", "??", ""], "requires_dist": [["a>=1"], ["a ; os_name == '\\x'"], ["bad req!"], []],
+        "metadata_version": ["2.1", "2.3", "2.4", "1.0", "9.9", "x"], "name": ["foo", "Foo_Bar", "-bad", "", "{x}", "a{0}"], "version": ["1.0", "1!2a1", "bad", "{0}", "1.{}"],
+        "summary": ["ok", "two\nlines", "{}\nx"], "description": ["text"], "description_content_type": ["text/markdown", "text/plain; charset=UTF-8", "text/x", "text/plain\nfoo", "text/plain; charset=latin-1"],
+        "keywords": [["a", "b"], []], "requires_python": [">=3.8", "??", "", "{x}"], "requires_dist": [["a>=1"], ["a ; os_name == '\\x'"], ["bad req!"], []],
         "provides_extra": [["a", "B_c"], ["-x"]], "dynamic": [["classifier"], ["name"], ["nope"]], "license_expression": ["MIT", "mit or apache-2.0", "LicenseRef-foo+", "MIT AND ()"],
         "license_files": [["LICENSE"], ["../x"], ["/abs"], ["a\\b"], ["*.txt"]], "project_urls": [{"A": "u"}], "classifiers": [["x"]],
         "platforms": [["any"]], "author": ["me"], "bogus": ["1"], "license": ["MIT text"], "home_page": ["h"],
